@@ -9,6 +9,9 @@
  *   VERIF_FS_KILL_AT  k >= 1: kill before the k-th operation is performed
  *   VERIF_FS_PARTIAL  m >= 1 (with KILL_AT = k, when operation k is a write of more than m bytes):
  *                     write the first m bytes, then kill
+ *   VERIF_FS_SHORT    1 (with FAIL_AT = f, when operation f is a write): the write stores the first half of its bytes and reports
+ *                     that count (a short write, how a full disk or a file-size limit first shows); every later write to the
+ *                     same file fails with ENOSPC
  *   VERIF_FS_FAIL_AT  f >= 1: the f-th operation fails and has no effect (open: EACCES, write: ENOSPC,
  *                     rename: EXDEV; a close is performed and reports EIO); logged as
  *                       openfail <path> | writefail <path> <n> | closefail <path> | renamefail <src> <dst>
@@ -46,6 +49,7 @@ static void log_raw(const char* s, size_t n)
 static void log_str(const char* s) { log_raw(s, strlen(s)); }
 
 #include <errno.h>
+static int full_fd = -1;      /* descriptor of the file whose disk is "full" after a short write */
 static int fails_now(void)
 {
     const char* f = getenv("VERIF_FS_FAIL_AT");
@@ -142,6 +146,13 @@ ssize_t write(int fd, const void* buf, size_t n)
     {
         long part = before_op(1, n);
         if (part >= 0) { long k = syscall(SYS_write, fd, buf, (size_t) part); log_write(p, buf, k > 0 ? (size_t) k : 0); die(); }
+        if (full_fd == fd) { char head[64]; log_str("writefail "); log_str(p); snprintf(head, sizeof head, " %zu\n", n); log_str(head); errno = ENOSPC; return -1; }
+        if (fails_now() && getenv("VERIF_FS_SHORT") && n >= 2)
+        {
+            size_t half = n / 2; long k = syscall(SYS_write, fd, buf, half);
+            log_write(p, buf, k > 0 ? (size_t) k : 0); full_fd = fd;
+            return k;
+        }
         if (fails_now()) { char head[64]; log_str("writefail "); log_str(p); snprintf(head, sizeof head, " %zu\n", n); log_str(head); errno = ENOSPC; return -1; }
         log_write(p, buf, n);
         /* complete the whole write so that the log is exact */
@@ -180,6 +191,7 @@ int fclose(FILE* f)
         int bad = fails_now();
         log_str(bad ? "closefail " : "close "); log_str(p); log_str("\n");
         free(fd_path[fd]); fd_path[fd] = NULL;
+        if (full_fd == fd) full_fd = -1;
         if (bad) { real(f); errno = EIO; return EOF; }
     }
     return real(f);
@@ -193,6 +205,7 @@ int close(int fd)
         int bad = fails_now();
         log_str(bad ? "closefail " : "close "); log_str(p); log_str("\n");
         free(fd_path[fd]); fd_path[fd] = NULL;
+        if (full_fd == fd) full_fd = -1;
         if (bad) { syscall(SYS_close, fd); errno = EIO; return -1; }
     }
     return (int) syscall(SYS_close, fd);
